@@ -412,6 +412,7 @@ impl PrefixInformation {
     /// <https://www.rfc-editor.org/rfc/rfc4862#section-5.5.3>
     pub fn is_valid_prefix_info(&self) -> bool {
         self.flags.contains(PrefixInfoFlags::ADDRCONF)
+            && self.prefix_len <= 128
             && !self.prefix.is_link_local()
             && self.preferred_lifetime <= self.valid_lifetime
     }
